@@ -60,15 +60,15 @@ PROPS = {
             "assumptions": ["tomb sweeper disabled (a sweeper transaction is a local writer and triggers a snapshot by design, config.go:254-256)",
                             "fleet-level bound follows from the per-instance statements: after the last application write each instance uploads at most once more per load that found a local change"],
             "trusted_base": [LMDB_TRUST, "Instance/Ids.v abstracts the loop's id bookkeeping; it is evaluated next to the executable machine (Instance/SyncLoop.v), which is compared with the real syncLoop through the verif yield hooks"]},
-    "C03": {"seed": 3, "areas": [("syncloop", 120), ("shadow", 300), ("merge", 300), ("instance", 200)], "thorough_mult": 6,
+    "C03": {"seed": 3, "areas": [("syncloop", 120), ("shadow", 300), ("merge", 300), ("instance", 360)], "thorough_mult": 6,
             "assumptions": ["known finding F8: an application commit between an empty own write transaction and the following env.Info() (C03_refuted)",
                             "shadow mode records CHANGES between two captures: writing a value back, or creating and deleting a key between two captures, leaves nothing to record",
                             "empty application values: known finding F6 (reported under C11)"],
             "trusted_base": [LMDB_TRUST, "Instance/Ids.v (abstract id bookkeeping, all interleavings) + Instance/SyncLoop.v (executable loop) compared with the real syncLoop via yield hooks"]},
-    "C09": {"seed": 9, "areas": [("syncloop", 144), ("crash", 40), ("receiver", 120)], "thorough_mult": 6,
+    "C09": {"seed": 9, "areas": [("syncloop", 144), ("crash", 40), ("receiver", 120), ("shadow", 200)], "thorough_mult": 6,
             "assumptions": ["known finding F8 (C09_refuted)", "Store failures below the retry budget (StorageRetryCount) are retried; exhausting it makes the loop return (the process restarts and uploads at start-up)"],
             "trusted_base": [LMDB_TRUST, "Instance/Ids.v + Instance/SyncLoop.v as for C03"]},
-    "C01": {"seed": 1, "areas": [("fleet", 160), ("merge", 300), ("syncloop", 60), ("shadow", 200), ("retention", 60), ("crash", 30)], "thorough_mult": 6,
+    "C01": {"seed": 1, "areas": [("fleet", 160), ("merge", 300), ("syncloop", 120), ("shadow", 200), ("retention", 60), ("crash", 30)], "thorough_mult": 6,
             "assumptions": ["tomb sweeper disabled (cutoff 0), as the property states",
                             "applications are monotone per key per instance (a write is at least as new as what the instance holds); in shadow mode instances share one monotone clock (documented operating assumption)",
                             "quiescent = every instance uploaded after its last write and merged such a snapshot of every instance; C09 supplies the first half on the real loop",
